@@ -5,7 +5,7 @@ from hypothesis import strategies as st
 from hypothesis.stateful import RuleBasedStateMachine, precondition, rule
 
 from .. import model, ops, zygote
-from ..runner import Sub, Violation, require
+from ..runner import Sub, Violation, guarded, require
 
 PROPERTY = "C09"
 RULE = ("histories (Hypothesis RuleBasedStateMachine, <= 20 / 40 steps) over a bundle of "
@@ -229,7 +229,7 @@ def machine(tier, hook):
         def _do(self, step):
             self.steps.append(step)
             try:
-                exec_step(self.st, step, rec)
+                guarded(lambda c_, r_: exec_step(self.st, c_, r_), step, rec)
             except Violation as v:
                 self.failed = True
                 hook.failed({"tier": tier, "steps": self.steps}, str(v))
